@@ -61,7 +61,7 @@ func TestVerifC34Aurora(t *testing.T) {
 		b := memo[combo]
 		if b == nil {
 			b = &base{rec: verifGenuine(x, ki, ui, ni)}
-			b.ops = c34ref.Ops(b.rec, ki)
+			b.ops = c34ref.Ops(b.rec, ki, true)
 			memo[combo] = b
 		}
 		op := b.ops[verifChooseIdx(x, len(b.ops))]
